@@ -1,15 +1,17 @@
 (* Main.v -- dispatch of one protocol line to the stream runners *)
-From RW Require Import Base.Bytes Run.Wire Run.RunCodec.
+From RW Require Import Base.Bytes Run.Wire Run.RunCodec Run.RunConc.
 Open Scope N_scope.
 
 Definition k_enc : str := [101; 110; 99].   (* "enc" *)
 Definition k_dec : str := [100; 101; 99].   (* "dec" *)
+Definition k_sched : str := [115; 99; 104; 101; 100].   (* "sched" *)
 
 Definition run_line (line : str) : str :=
   match tokens line with
   | cmd :: args =>
       if str_eqb cmd k_enc then run_enc args
       else if str_eqb cmd k_dec then run_dec args
+      else if str_eqb cmd k_sched then run_sched args
       else s_bad
   | [] => s_bad
   end.
